@@ -1,13 +1,45 @@
-//! C32 replay: configuration merging and key flattening on the REAL `load_configs_raw`.
-//!   replay                 run every scenario below; exit 1 if any expectation derived from the property statement fails
+//! C32 replay + bounded witness search: configuration merging and key flattening on the REAL `load_configs_raw`.
+//!   replay                 run every fixed scenario below; exit 1 if any expectation derived from the property statement fails
 //!   replay <scenario>      one of: arrays | later-wins | empty-key | value-and-prefix | deterministic
 //!   replay files a.json b.json ...   load the given files in that order and print the merged configuration
+//!   replay search [seed] [count]     bounded witness search over GENERATED file lists (default seed 1, 1200 random lists on
+//!                                    top of the ~330 systematic ones); `FOUND <clause>: ...` + exit 1, exit 0 otherwise, exit 2
+//!                                    when the scenario cannot be set up (temp dir, child process)
+//!   replay child <dir> <n>           (internal) load the n lists written below <dir>, one result per line
 //! Decides nothing: each FOUND line is a concrete set of configuration files on which the real loader does not do what
-//! C32 says ("a dotted flat key means exactly the same as the nested form; the later file's value wins whichever spelling
-//! each file uses; arrays from later files are appended without duplicates").
+//! C32 says ("Loading the same configuration files in the same order always gives the same configuration. A dotted flat
+//! key such as "diagnostics.enable" means exactly the same as the nested form. When several files set one scalar, the
+//! later file's value wins whichever spelling each file uses, and arrays from later files are appended without
+//! duplicates").
+//!
+//! search: ORACLE (computed in this file from the statement, it shares no code with the loader)
+//!   denote(file)   = the list of (path -> leaf) of the file: every key at EVERY depth is split at its dots, so
+//!                    {"a.b": {"c.d": 1}} and {"a": {"b": {"c": {"d": 1}}}} both denote a.b.c.d -> 1; a leaf is any
+//!                    value that is not an object (arrays are leaves, objects inside arrays are array elements)
+//!   merged(files)  = for every path, going through the files in order: a later array is APPENDED to an earlier array
+//!                    at the same path, leaving out every element (string, number, object) that is already there; any
+//!                    other later leaf REPLACES the earlier one
+//!   expected       = the nested object of merged(files).  Where the first file that sets an array repeats an element
+//!                    itself, the statement does not say whether the repetition stays: both answers are accepted.
+//!   clauses        [deterministic]       30 in-process loads of the list (every hashbrown map has its own seed) and one
+//!                                        load in each of 3 child processes all give the same value
+//!                  [later-wins] [arrays] load == expected (named after the kind of the first path that differs)
+//!                  [flat-equals-nested]  the same files re-spelled all-flat (one dotted key per setting at the top
+//!                                        level), all-nested, and in two random mixed spellings load to the same value
+//!   COLLISIONS     a list in which one file spells a path twice, or in which a path is both a leaf and a prefix of
+//!                  another path ({"runtime": "Lua5.1", "runtime.version": "Lua5.4"}): the statement does not say which
+//!                  shape wins, so only [deterministic] is checked for these.
+//! BOUNDS  vocabulary: diagnostics.enable (bool), diagnostics.disable (string array), diagnostics.severity.<2 codes>,
+//!   runtime.version, workspace.library (strings AND {path, ignoreDir, ignoreGlobs} objects), hint.levels (array of
+//!   numbers; not a real setting, the raw loader is schema-agnostic), workspace.ignoreDir; 1-3 files, 1-4 settings per file,
+//!   every spelling of a path (2^(segments-1): each separator is a dot or a nesting level, so MIXED forms such as
+//!   {"diagnostics": {"severity.unused": "error"}} are included).  Systematic part: every scalar / array setting x every
+//!   pair of spellings in two files, three-file chains, the collision files.  A hit is minimised (files, members, array
+//!   elements removed while the same clause still fails) before it is printed.
 use emmylua_code_analysis::load_configs_raw;
 use serde_json::{Value, json};
-use std::path::PathBuf;
+use std::collections::BTreeMap;
+use std::path::{Path, PathBuf};
 
 fn load(files: &[&str]) -> Value {
     let dir = std::env::temp_dir().join(format!("vp_c32_{}", std::process::id()));
@@ -35,6 +67,14 @@ fn check(name: &str, files: &[&str], expect: Value, bad: &mut u32) {
 
 fn main() {
     let a: Vec<String> = std::env::args().skip(1).collect();
+    match a.first().map(|s| s.as_str()) {
+        Some("search") => search::run(a.get(1).and_then(|s| s.parse().ok()).unwrap_or(1), a.get(2).and_then(|s| s.parse().ok()).unwrap_or(1200)),
+        Some("child") => search::child(Path::new(&a[1]), a[2].parse().expect("n")),
+        _ => fixed_scenarios(a),
+    }
+}
+
+fn fixed_scenarios(a: Vec<String>) {
     if a.first().map(|s| s.as_str()) == Some("files") {
         let contents: Vec<String> = a[1..].iter().map(|p| std::fs::read_to_string(p).expect("read")).collect();
         let refs: Vec<&str> = contents.iter().map(|s| s.as_str()).collect();
@@ -100,4 +140,391 @@ fn main() {
     }
     if bad > 0 { println!("{bad} expectation(s) of C32 violated by the real loader"); std::process::exit(1); }
     println!("all C32 expectations hold on the real loader");
+}
+
+mod search {
+    use super::*;
+
+    // ------------------------------------------------------------------------------------------- a tiny JSON model
+    /// JSON text is produced by hand so that the member order (and the presence of two spellings of one path) is under
+    /// the generator's control, whatever map type serde_json is built with.
+    #[derive(Clone, Debug, PartialEq)]
+    pub enum J { Bool(bool), Num(i64), Str(String), Arr(Vec<J>), Obj(Vec<(String, J)>) }
+
+    impl J {
+        fn text(&self) -> String {
+            match self {
+                J::Bool(b) => b.to_string(),
+                J::Num(n) => n.to_string(),
+                J::Str(s) => format!("{s:?}"),
+                J::Arr(v) => format!("[{}]", v.iter().map(|e| e.text()).collect::<Vec<_>>().join(", ")),
+                J::Obj(m) => format!("{{{}}}", m.iter().map(|(k, v)| format!("{k:?}: {}", v.text())).collect::<Vec<_>>().join(", ")),
+            }
+        }
+        fn value(&self) -> Value {
+            match self {
+                J::Bool(b) => Value::Bool(*b),
+                J::Num(n) => json!(n),
+                J::Str(s) => Value::String(s.clone()),
+                J::Arr(v) => Value::Array(v.iter().map(|e| e.value()).collect()),
+                J::Obj(m) => Value::Object(m.iter().map(|(k, v)| (k.clone(), v.value())).collect()),
+            }
+        }
+    }
+    fn s(x: &str) -> J { J::Str(x.to_string()) }
+
+    struct Rng(u64);
+    impl Rng {
+        fn next(&mut self) -> u64 { self.0 ^= self.0 << 13; self.0 ^= self.0 >> 7; self.0 ^= self.0 << 17; self.0 }
+        fn below(&mut self, n: usize) -> usize { (self.next() % n as u64) as usize }
+    }
+
+    // ------------------------------------------------------------------------------------------- oracle
+    type PathKey = Vec<String>;
+
+    /// (path -> leaf) pairs of one file in document order: EVERY key at every depth is split at its dots
+    fn denote(j: &J, prefix: &PathKey, out: &mut Vec<(PathKey, J)>) {
+        match j {
+            J::Obj(m) => for (k, v) in m {
+                let mut p = prefix.clone();
+                p.extend(k.split('.').map(String::from));
+                denote(v, &p, out);
+            },
+            leaf => out.push((prefix.clone(), leaf.clone())),
+        }
+    }
+    fn is_prefix(a: &PathKey, b: &PathKey) -> bool { a.len() < b.len() && b[..a.len()] == a[..] }
+
+    /// None = the list has a collision (the statement fixes nothing but determinism); otherwise path -> leaf.
+    /// `dedup_first`: whether an array's own repetitions are dropped in the file that sets it first.
+    fn merged(files: &[J], dedup_first: bool) -> Option<BTreeMap<PathKey, J>> {
+        let mut m: BTreeMap<PathKey, J> = BTreeMap::new();
+        for f in files {
+            let mut d = Vec::new();
+            denote(f, &Vec::new(), &mut d);
+            for (i, (p, _)) in d.iter().enumerate() {
+                if d[..i].iter().any(|(q, _)| q == p || is_prefix(q, p) || is_prefix(p, q)) { return None; }
+            }
+            for (p, leaf) in d {
+                if m.keys().any(|q| is_prefix(q, &p) || is_prefix(&p, q)) { return None; }
+                let appended = match (m.get_mut(&p), &leaf) {
+                    (Some(J::Arr(old)), J::Arr(new)) => { for e in new { if !old.contains(e) { old.push(e.clone()); } } true }
+                    _ => false,
+                };
+                if !appended {
+                    let leaf = match leaf {
+                        J::Arr(v) if dedup_first => { let mut u: Vec<J> = Vec::new(); for e in v { if !u.contains(&e) { u.push(e); } } J::Arr(u) }
+                        other => other,
+                    };
+                    m.insert(p, leaf);
+                }
+            }
+        }
+        Some(m)
+    }
+    fn nested(m: &BTreeMap<PathKey, J>) -> Value {
+        let mut root = Value::Object(Default::default());
+        for (p, leaf) in m {
+            let mut cur = &mut root;
+            for (i, seg) in p.iter().enumerate() {
+                let obj = cur.as_object_mut().expect("collision-free paths");
+                if i + 1 == p.len() { obj.insert(seg.clone(), leaf.value()); break; }
+                cur = obj.entry(seg.clone()).or_insert_with(|| Value::Object(Default::default()));
+            }
+        }
+        root
+    }
+    fn flat_view(v: &Value, prefix: String, out: &mut BTreeMap<String, Value>) {
+        match v {
+            Value::Object(m) if !m.is_empty() => for (k, x) in m { flat_view(x, if prefix.is_empty() { k.clone() } else { format!("{prefix}.{k}") }, out); },
+            other => { out.insert(prefix, other.clone()); }
+        }
+    }
+
+    // ------------------------------------------------------------------------------------------- spelling
+    /// one setting of a file: path segments, leaf, and for each separator whether it is a nesting level (true) or a dot
+    #[derive(Clone, Debug)]
+    struct Entry { segs: Vec<String>, nest: Vec<bool>, leaf: J }
+
+    fn groups(e: &Entry) -> Vec<String> {
+        let mut g = vec![e.segs[0].clone()];
+        for i in 1..e.segs.len() {
+            if e.nest[i - 1] { g.push(e.segs[i].clone()); } else { let l = g.last_mut().expect("g"); l.push('.'); l.push_str(&e.segs[i]); }
+        }
+        g
+    }
+    /// the file that spells the entries as asked; an entry that cannot be placed (its key group is already a leaf / an
+    /// object) is spelled as one dotted key at the top level instead; false = it cannot be placed at all (dropped)
+    fn insert(obj: &mut Vec<(String, J)>, g: &[String], leaf: &J) -> bool {
+        if g.len() == 1 {
+            if obj.iter().any(|(k, _)| k == &g[0]) { return false; }
+            obj.push((g[0].clone(), leaf.clone()));
+            return true;
+        }
+        match obj.iter().position(|(k, _)| k == &g[0]) {
+            Some(i) => match &mut obj[i].1 { J::Obj(inner) => insert(inner, &g[1..], leaf), _ => false },
+            None => { let mut inner = Vec::new(); insert(&mut inner, &g[1..], leaf); obj.push((g[0].clone(), J::Obj(inner))); true }
+        }
+    }
+    fn build(entries: &[Entry]) -> J {
+        let mut obj: Vec<(String, J)> = Vec::new();
+        for e in entries {
+            // try on a copy: a failed insertion may have created empty objects on the way
+            let mut trial = obj.clone();
+            if insert(&mut trial, &groups(e), &e.leaf) { obj = trial; continue; }
+            let flat = vec![e.segs.join(".")];
+            let mut trial = obj.clone();
+            if insert(&mut trial, &flat, &e.leaf) { obj = trial; }
+        }
+        J::Obj(obj)
+    }
+    /// the same denotation in another spelling: mode 0 all flat, 1 all nested, 2 random per setting
+    fn respell(file: &J, mode: u8, rng: &mut Rng) -> J {
+        let mut d = Vec::new();
+        denote(file, &Vec::new(), &mut d);
+        let entries: Vec<Entry> = d.into_iter().map(|(p, leaf)| {
+            let nest = (1..p.len()).map(|_| match mode { 0 => false, 1 => true, _ => rng.below(2) == 1 }).collect();
+            Entry { segs: p, nest, leaf }
+        }).collect();
+        build(&entries)
+    }
+
+    // ------------------------------------------------------------------------------------------- vocabulary
+    fn lib_obj(path: &str, dirs: &[&str]) -> J {
+        J::Obj(vec![("path".into(), s(path)), ("ignoreDir".into(), J::Arr(dirs.iter().map(|d| s(d)).collect())), ("ignoreGlobs".into(), J::Arr(vec![s("**/*.spec.lua")]))])
+    }
+    struct Setting { segs: &'static [&'static str], pool: Vec<J>, array: bool }
+    fn vocabulary() -> Vec<Setting> {
+        vec![
+            Setting { segs: &["diagnostics", "enable"], pool: vec![J::Bool(true), J::Bool(false)], array: false },
+            Setting { segs: &["diagnostics", "severity", "unused"], pool: vec![s("error"), s("warning"), s("hint")], array: false },
+            Setting { segs: &["diagnostics", "severity", "undefined-global"], pool: vec![s("error"), s("warning"), s("information")], array: false },
+            Setting { segs: &["runtime", "version"], pool: vec![s("Lua5.1"), s("Lua5.4"), s("LuaJIT")], array: false },
+            Setting { segs: &["diagnostics", "disable"], pool: vec![s("undefined-global"), s("unused"), s("undefined-field"), s("redefined-local")], array: true },
+            Setting { segs: &["workspace", "library"], pool: vec![s("/lib/a"), s("/lib/b"), lib_obj("/lib/a", &["test"]), lib_obj("/lib/c", &["test", "spec"]), lib_obj("/lib/c", &["spec"])], array: true },
+            Setting { segs: &["workspace", "ignoreDir"], pool: vec![s("build"), s("dist"), s(".git")], array: true },
+            Setting { segs: &["hint", "levels"], pool: vec![J::Num(1), J::Num(2), J::Num(3), J::Num(10)], array: true },
+        ]
+    }
+    fn segs_of(st: &Setting) -> Vec<String> { st.segs.iter().map(|x| x.to_string()).collect() }
+    fn spellings(n: usize) -> Vec<Vec<bool>> { (0..1u32 << (n - 1)).map(|m| (0..n - 1).map(|i| m >> i & 1 == 1).collect()).collect() }
+    fn one(st: &Setting, nest: &[bool], leaf: J) -> J { build(&[Entry { segs: segs_of(st), nest: nest.to_vec(), leaf }]) }
+
+    fn systematic() -> Vec<Vec<J>> {
+        let voc = vocabulary();
+        let mut out: Vec<Vec<J>> = Vec::new();
+        for st in &voc {
+            let sp = spellings(st.segs.len());
+            for a in &sp { for b in &sp {
+                if st.array {
+                    let p = &st.pool;
+                    // [x, y] then [y, z, z]: y is already there, z repeats inside the later file
+                    out.push(vec![one(st, a, J::Arr(vec![p[0].clone(), p[1].clone()])), one(st, b, J::Arr(vec![p[1].clone(), p[2].clone(), p[2].clone()]))]);
+                    if p.len() > 3 {
+                        // the LAST pool elements (objects / larger numbers) repeated across and inside files
+                        let (x, y) = (p[p.len() - 1].clone(), p[p.len() - 2].clone());
+                        out.push(vec![one(st, a, J::Arr(vec![y.clone(), x.clone()])), one(st, b, J::Arr(vec![x.clone(), p[0].clone(), y.clone()]))]);
+                    }
+                } else {
+                    out.push(vec![one(st, a, st.pool[0].clone()), one(st, b, st.pool[1].clone())]);
+                }
+            } }
+            // three files, three spellings
+            for k in 0..sp.len() {
+                let (a, b, c) = (&sp[k], &sp[(k + 1) % sp.len()], &sp[(k + 2) % sp.len()]);
+                if st.array {
+                    let p = &st.pool;
+                    out.push(vec![one(st, a, J::Arr(vec![p[0].clone()])), one(st, b, J::Arr(vec![p[1].clone(), p[0].clone()])), one(st, c, J::Arr(vec![p[2].clone(), p[1].clone(), p[p.len() - 1].clone()]))]);
+                } else {
+                    out.push(vec![one(st, a, st.pool[0].clone()), one(st, b, st.pool[1].clone()), one(st, c, st.pool[2 % st.pool.len()].clone())]);
+                }
+            }
+        }
+        // siblings below one section, one of them dotted below the top level
+        out.push(vec![J::Obj(vec![("diagnostics".into(), J::Obj(vec![("severity.unused".into(), s("error")), ("enable".into(), J::Bool(true))]))]),
+                      J::Obj(vec![("diagnostics".into(), J::Obj(vec![("severity".into(), J::Obj(vec![("unused".into(), s("warning"))])), ("enable".into(), J::Bool(false))]))])]);
+        // collisions: a name that is a scalar AND a prefix; one path spelled twice in one file
+        let c1 = J::Obj(vec![("runtime".into(), s("Lua5.1")), ("runtime.version".into(), s("Lua5.4"))]);
+        let c2 = J::Obj(vec![("runtime.version".into(), s("Lua5.4")), ("runtime".into(), s("Lua5.1"))]);
+        let c3 = J::Obj(vec![("diagnostics".into(), J::Obj(vec![("severity".into(), s("error")), ("severity.unused".into(), s("hint"))]))]);
+        let c4 = J::Obj(vec![("diagnostics.enable".into(), J::Bool(true)), ("diagnostics".into(), J::Obj(vec![("enable".into(), J::Bool(false))]))]);
+        let c5 = J::Obj(vec![("workspace".into(), s("x")), ("workspace.library".into(), J::Arr(vec![s("/lib/a")])), ("workspace.ignoreDir".into(), J::Arr(vec![s("build")]))]);
+        let plain = J::Obj(vec![("runtime".into(), J::Obj(vec![("version".into(), s("LuaJIT"))]))]);
+        for c in [&c1, &c2, &c3, &c4, &c5] {
+            out.push(vec![c.clone()]);
+            out.push(vec![c.clone(), plain.clone()]);
+            out.push(vec![plain.clone(), c.clone()]);
+        }
+        out.push(vec![J::Obj(vec![("runtime".into(), s("Lua5.1"))]), J::Obj(vec![("runtime.version".into(), s("Lua5.4"))])]);
+        out.push(vec![J::Obj(vec![("runtime.version".into(), s("Lua5.4"))]), J::Obj(vec![("runtime".into(), s("Lua5.1"))])]);
+        out
+    }
+
+    fn random_list(rng: &mut Rng) -> Vec<J> {
+        let voc = vocabulary();
+        let nfiles = 1 + rng.below(3);
+        (0..nfiles).map(|_| {
+            let k = 1 + rng.below(4);
+            let mut entries: Vec<Entry> = Vec::new();
+            for _ in 0..k {
+                let st = &voc[rng.below(voc.len())];
+                if entries.iter().any(|e| e.segs == segs_of(st)) { continue; }
+                let leaf = if st.array { J::Arr((0..1 + rng.below(3)).map(|_| st.pool[rng.below(st.pool.len())].clone()).collect()) } else { st.pool[rng.below(st.pool.len())].clone() };
+                let nest = (1..st.segs.len()).map(|_| rng.below(2) == 1).collect();
+                entries.push(Entry { segs: segs_of(st), nest, leaf });
+            }
+            // one file in eight carries a collision: a section name that is also a scalar, spelled flat at the top level
+            if rng.below(8) == 0 {
+                let sect = ["runtime", "diagnostics", "workspace", "diagnostics.severity"][rng.below(4)];
+                let e = Entry { segs: sect.split('.').map(String::from).collect(), nest: vec![false; sect.split('.').count() - 1], leaf: s("scalar") };
+                if rng.below(2) == 0 { entries.insert(0, e); } else { entries.push(e); }
+            }
+            build(&entries)
+        }).collect()
+    }
+
+    // ------------------------------------------------------------------------------------------- running the real loader
+    struct Scratch { dir: PathBuf }
+    impl Scratch {
+        fn write(&self, sub: &str, files: &[J]) -> Vec<PathBuf> {
+            let d = self.dir.join(sub);
+            if std::fs::create_dir_all(&d).is_err() { println!("UNDECIDED cannot create {d:?}"); std::process::exit(2); }
+            files.iter().enumerate().map(|(i, f)| {
+                let p = d.join(format!("{i}.json"));
+                if std::fs::write(&p, f.text()).is_err() { println!("UNDECIDED cannot write {p:?}"); std::process::exit(2); }
+                p
+            }).collect()
+        }
+    }
+    fn show(files: &[J]) -> String { format!("[{}]", files.iter().map(|f| f.text()).collect::<Vec<_>>().join(" ; ")) }
+
+    /// the clause a list violates (None = none), with the text of the finding; `loads` in-process repetitions
+    fn violation(sc: &Scratch, files: &[J], loads: usize, rng: &mut Rng) -> Option<(&'static str, String)> {
+        let paths = sc.write("cur", files);
+        let first = load_configs_raw(paths.clone(), None);
+        for i in 1..loads {
+            let again = load_configs_raw(paths.clone(), None);
+            if again != first {
+                return Some(("deterministic", format!("load 1 -> {first}   load {} of the same files -> {again}", i + 1)));
+            }
+        }
+        let Some(strict) = merged(files, true) else { return None; };
+        let lenient = merged(files, false).expect("same collisions");
+        let (e1, e2) = (nested(&strict), nested(&lenient));
+        if first != e1 && first != e2 {
+            let (mut g, mut e) = (BTreeMap::new(), BTreeMap::new());
+            flat_view(&first, String::new(), &mut g);
+            flat_view(&e2, String::new(), &mut e);
+            let at = e.iter().find(|(k, v)| g.get(*k) != Some(v)).map(|(k, v)| (k.clone(), v.clone()))
+                .or_else(|| g.iter().find(|(k, _)| !e.contains_key(*k)).map(|(k, _)| (k.clone(), Value::Null)));
+            let (k, v) = at.unwrap_or_default();
+            let clause = if v.is_array() { "arrays" } else { "later-wins" };
+            return Some((clause, format!("loaded {first}   (C32 says {e2}; first difference at `{k}`)")));
+        }
+        for mode in [0u8, 1, 2, 2] {
+            let other: Vec<J> = files.iter().map(|f| respell(f, mode, rng)).collect();
+            if merged(&other, false) != Some(lenient.clone()) { continue; } // a spelling that could not be built
+            let r = load_configs_raw(sc.write("alt", &other), None);
+            if r != first {
+                return Some(("flat-equals-nested", format!("loaded {first}   but the same settings spelled {} load as {r}", show(&other))));
+            }
+        }
+        None
+    }
+
+    /// every list obtained by removing one file, one object member or one array element
+    fn reductions(files: &[J]) -> Vec<Vec<J>> {
+        fn shrink(j: &J) -> Vec<J> {
+            let mut out = Vec::new();
+            match j {
+                J::Obj(m) => for i in 0..m.len() {
+                    let mut c = m.clone(); c.remove(i); out.push(J::Obj(c));
+                    for smaller in shrink(&m[i].1) { let mut c = m.clone(); c[i].1 = smaller; out.push(J::Obj(c)); }
+                },
+                J::Arr(v) => for i in 0..v.len() {
+                    let mut c = v.clone(); c.remove(i); out.push(J::Arr(c));
+                    for smaller in shrink(&v[i]) { let mut c = v.clone(); c[i] = smaller; out.push(J::Arr(c)); }
+                },
+                _ => {}
+            }
+            out
+        }
+        let mut out = Vec::new();
+        for i in 0..files.len() {
+            if files.len() > 1 { let mut c = files.to_vec(); c.remove(i); out.push(c); }
+            for smaller in shrink(&files[i]) {
+                if matches!(&smaller, J::Obj(m) if m.is_empty()) { continue; }
+                let mut c = files.to_vec(); c[i] = smaller; out.push(c);
+            }
+        }
+        out
+    }
+    fn minimise(sc: &Scratch, mut files: Vec<J>, clause: &str, rng: &mut Rng) -> (Vec<J>, String) {
+        let loads = if clause == "deterministic" { 60 } else { 2 };
+        let mut msg = violation(sc, &files, loads, rng).map(|(_, m)| m).unwrap_or_default();
+        'outer: loop {
+            for cand in reductions(&files) {
+                if let Some((c, m)) = violation(sc, &cand, loads, rng) && c == clause { files = cand; msg = m; continue 'outer; }
+            }
+            return (files, msg);
+        }
+    }
+
+    pub fn child(dir: &Path, n: usize) {
+        for k in 0..n {
+            let d = dir.join(format!("l{k}"));
+            let mut paths = Vec::new();
+            for i in 0.. { let p = d.join(format!("{i}.json")); if p.exists() { paths.push(p); } else { break; } }
+            println!("{}", load_configs_raw(paths, None));
+        }
+    }
+
+    pub fn run(seed: u64, count: usize) {
+        let t0 = std::time::Instant::now();
+        let sc = Scratch { dir: std::env::temp_dir().join(format!("vr_c32s_{}", std::process::id())) };
+        let _ = std::fs::remove_dir_all(&sc.dir);
+        let mut rng = Rng(seed.wrapping_mul(0x9E37_79B9_7F4A_7C15) | 1);
+        let mut lists = systematic();
+        let n_sys = lists.len();
+        for _ in 0..count { lists.push(random_list(&mut rng)); }
+        let mut found: Vec<&'static str> = Vec::new();
+        let (mut collisions, mut firsts) = (0usize, Vec::new());
+        for (k, files) in lists.iter().enumerate() {
+            if merged(files, false).is_none() { collisions += 1; }
+            let paths = sc.write(&format!("l{k}"), files); // kept for the child processes
+            firsts.push(load_configs_raw(paths, None));
+            if let Some((clause, _)) = violation(&sc, files, 30, &mut rng) {
+                if found.contains(&clause) { continue; }
+                found.push(clause);
+                let (min, msg) = minimise(&sc, files.clone(), clause, &mut rng);
+                println!("FOUND {clause}: list #{k} minimised to files {} : {msg}", show(&min));
+            }
+        }
+        // the same lists in 3 child processes
+        let me = std::env::current_exe().expect("current_exe");
+        for c in 0..3 {
+            let out = match std::process::Command::new(&me).arg("child").arg(&sc.dir).arg(lists.len().to_string()).stderr(std::process::Stdio::null()).output() {
+                Ok(o) if o.status.success() => o,
+                other => { println!("UNDECIDED child process {c} failed: {other:?}"); std::process::exit(2); }
+            };
+            let text = String::from_utf8_lossy(&out.stdout);
+            let lines: Vec<&str> = text.lines().collect();
+            if lines.len() != lists.len() { println!("UNDECIDED child process {c} printed {} results for {} lists", lines.len(), lists.len()); std::process::exit(2); }
+            for (k, l) in lines.iter().enumerate() {
+                let v: Value = serde_json::from_str(l).unwrap_or(Value::Null);
+                if v != firsts[k] && !found.contains(&"deterministic") {
+                    found.push("deterministic");
+                    println!("FOUND deterministic: list #{k} files {} : this process loaded {}   child process {c} loaded {v}", show(&lists[k]), firsts[k]);
+                }
+            }
+        }
+        let _ = std::fs::remove_dir_all(&sc.dir);
+        let secs = t0.elapsed().as_secs_f32();
+        if found.is_empty() {
+            println!("OK C32 search seed {seed}: {} lists ({n_sys} systematic + {count} random, {collisions} with a collision: determinism only) x 30 loads + 3 child processes + 4 re-spellings: the real loader agrees with the statement ({secs:.1}s)", lists.len());
+            std::process::exit(0);
+        }
+        println!("{} clause(s) of C32 violated by the real loader: {} ({} lists, {secs:.1}s)", found.len(), found.join(", "), lists.len());
+        std::process::exit(1);
+    }
 }
